@@ -662,6 +662,20 @@ HYGIENE_TEMPLATES = [
       "main.pn": 'import "greeter.pn";\n\nfn main() -> i32\n{\n\tgreet();\n\treturn: 7\n}\n',
       "util.pn": "pub fn write(x: i32) -> i32\n{\n\treturn: x + 1\n}\n"},
      ["main.pn", "greeter.pn", "util.pn"], ["main.pn", "greeter.pn"]),
+    ("pub_constant_and_pub_function_of_one_name_from_two_modules",
+     "const area: i32 = 4;\n\nfn area(w: i32) -> i32\n{\n\treturn: w * 2\n}\n\nfn main() -> i32\n{\n\treturn: area(3) + area\n}\n",
+     {"consts.pn": "pub const area: i32 = 4;\n",
+      "shapes.pn": "pub fn area(w: i32) -> i32\n{\n\treturn: w * 2\n}\n",
+      "main.pn": 'import "consts.pn";\nimport "shapes.pn";\n\nfn main() -> i32\n{\n\treturn: area(3) + area\n}\n'},
+     ["main.pn", "consts.pn", "shapes.pn"], None),
+    ("two_modules_export_structures_of_one_name",
+     "struct PointA\n{\n\tx: i32,\n}\n\nfn px(p: PointA) -> i32\n{\n\treturn: p.x\n}\n\nstruct PointB\n{\n\ta: i32,\n\tb: i32,\n}\n\nfn pa(p: PointB) -> i32\n{\n\treturn: p.a + p.b\n}\n\n"
+     "fn other() -> i32\n{\n\tvar q = PointB { a: 20, b: 10 };\n\treturn: pa(q)\n}\n\nfn main() -> i32\n{\n\tvar p = PointA { x: 7 };\n\treturn: px(p) + other()\n}\n",
+     {"one.pn": "pub struct Point\n{\n\tx: i32,\n}\n\npub fn px(p: Point) -> i32\n{\n\treturn: p.x\n}\n",
+      "two.pn": "pub struct Point\n{\n\ta: i32,\n\tb: i32,\n}\n\npub fn pa(p: Point) -> i32\n{\n\treturn: p.a + p.b\n}\n",
+      "other.pn": 'import "two.pn";\n\npub fn other() -> i32\n{\n\tvar q = Point { a: 20, b: 10 };\n\treturn: pa(q)\n}\n',
+      "main.pn": 'import "one.pn";\nimport "other.pn";\n\nfn main() -> i32\n{\n\tvar p = Point { x: 7 };\n\treturn: px(p) + other()\n}\n'},
+     ["main.pn", "one.pn", "two.pn", "other.pn"], None),
     ("private_structure_behind_a_pointer_in_a_pub_signature",
      "REJECT",      # `Hidden` is private to lib.pn: the importer may not name it (the unchanged compiler rejects this)
      {"lib.pn": "struct Hidden\n{\n\ta: i32,\n\tb: i32,\n}\n\npub fn poke(h: &Hidden) -> i32\n{\n\treturn: 1\n}\n",
@@ -715,7 +729,7 @@ def run_template(args):
         raise HarnessError("hygiene template %s: the reference program does not run: %s" % (name, (p.get("stderr") or p.get("detail") or "")[:300]))
     on_disk = {n: t for n, t in files.items() if n in names}
     case = Case(on_disk, sample_orders(names, rng, None), [rng.getrandbits(64) for _ in range(2)], behaviour(p), {}, "template:" + name)
-    case.may_reject = True
+    case.may_reject = name not in ("pub_constant_and_pub_function_of_one_name_from_two_modules", "two_modules_export_structures_of_one_name")
     for cls, detail in evaluate_case(case, os.path.join(wd_root, "c"), check_artifacts=False, stats=stats):
         res["violations"].append({"class": cls, "detail": detail, "kind": "case", "case": case.to_json()})
     shutil.rmtree(wd_root, ignore_errors=True)
